@@ -528,3 +528,118 @@ def r3_8(rep):
     reports; an independently seeded change that ignored it right after a unit was caught by C02's rule only."""
     import c02
     c02.r2_4(rep)
+
+
+# ---------------------------------------------------------------------------------------------------------
+# R3.9  where the unit is put / R3.10 where the width comes from  (added after round 3 of the seeded changes)
+# ---------------------------------------------------------------------------------------------------------
+@RULES.rule("R3.9", "a bit-field unit starts where libclang puts the first bit-field of its run", floor=1)
+def r3_9(rep):
+    """Every accessor addresses bits relative to the start of `_bitfield_N` with the first bit-field of the run at bit 0.  The C
+    compiler does not always start a run in the byte after the previous member: `struct A { short s; char c; unsigned long long
+    y:50; }` puts `y` at byte 8 (it does not fit in what is left of the first 8-byte unit), `struct B { char c; unsigned x:30; }`
+    puts `x` at byte 4.  So the position of the unit has to be taken from libclang's offset of the FIRST bit-field of the run
+    (named or not -- `offset_into_unit` counts from it); anchoring on a later one (the first named one) shifts every accessor when
+    the run opens with reserved bits."""
+    from hir import strip as _strip
+    prog = rep.prog
+    cg = rep.need(prog.impl_fn("codegen::FieldCodegen", "ir::comp::BitfieldUnit", "codegen") or
+                  next((b for p, b in prog.bodies.items() if "BitfieldUnit" in p and "FieldCodegen" in p and p.endswith("::codegen")), None),
+                  "<BitfieldUnit as FieldCodegen>::codegen")
+    calls = [c for c in cg.calls(lambda n: n["k"] == "MCall" and (n.get("callee") or n.get("resolved") or "").endswith("StructLayoutTracker::<'a>::saw_bitfield_unit"))]
+    rep.need(calls, "call of StructLayoutTracker::saw_bitfield_unit in BitfieldUnit::codegen")
+    sb = rep.need(next((b for p, b in prog.bodies.items() if p.endswith("::saw_bitfield_unit") and "StructLayoutTracker" in p), None),
+                  "StructLayoutTracker::saw_bitfield_unit")
+
+    def offset_reads(b, within):
+        return [x for x in b.walk(within) if x["k"] == "MCall" and x.get("name") == "offset" and
+                "Bitfield" in (b.ty(x["recv"]) or "")]
+
+    def through_locals(b, e, depth=6):
+        out, todo, seen = [], [e], set()
+        while todo and depth:
+            depth -= 1
+            e = todo.pop()
+            out.append(e)
+            for x in b.walk(e):
+                if x["k"] == "Local" and x["id"] not in seen:
+                    seen.add(x["id"])
+                    if b.local_init(x["id"]) is not None:
+                        todo.append(b.local_init(x["id"]))
+        return out
+
+    for c in calls:
+        reads = []
+        for a in c["args"]:
+            for e in through_locals(cg, a):
+                reads += offset_reads(cg, e)
+        if not reads:
+            rep.bad("unit-placement:not-anchored@saw_bitfield_unit",
+                    "the unit is placed right after the previous member (aligned to the unit's alignment); libclang's offset of the run's first "
+                    "bit-field is not consulted, so a run that the C compiler starts later is accessed at the wrong bytes", cg.loc(c))
+            continue
+        for r in reads:
+            # the bit-field whose offset is read: must be element 0 of the unit's bitfields
+            chain = []
+            e = _strip(r["recv"])
+            src = e
+            for _ in range(10):
+                if e.get("k") == "Local":
+                    d = cg.local_def.get(e["id"])
+                    if d and d[0][0] == "cparam":
+                        # closure parameter: look at the adaptor the closure is handed to
+                        clo = d[0][1]
+                        par = cg.parent[clo["_i"]]
+                        while par is not None and par["k"] not in ("MCall", "Call"):
+                            par = cg.parent[par["_i"]]
+                        if par is None:
+                            break
+                        chain.append(par.get("name") or "?")
+                        e = _strip(par["recv"]) if par["k"] == "MCall" else {}
+                        continue
+                    init = cg.local_init(e["id"])
+                    if init is None:
+                        break
+                    e = _strip(init)
+                    continue
+                if e.get("k") == "MCall":
+                    chain.append(e["name"])
+                    e = _strip(e["recv"])
+                    continue
+                if e.get("k") == "Index":
+                    idx = _strip(e["idx"]) if "idx" in e else {}
+                    chain.append("[0]" if idx.get("k") == "Lit" and idx.get("v") == 0 else "[?]")
+                    e = _strip(e.get("base") or e.get("e") or {})
+                    continue
+                break
+            first_only = {"first", "[0]", "next", "iter", "bitfields", "and_then", "map", "unwrap", "expect", "as_ref", "into_iter", "copied", "cloned"}
+            ok = bool(chain) and "bitfields" in chain and all(m in first_only for m in chain) and any(m in ("first", "[0]", "next") for m in chain)
+            rep.check(ok, "unit-placement:anchor-is-first-bitfield", "the anchoring offset is read from the unit's first bit-field (%s)" % "←".join(chain) if ok else
+                      "the anchoring offset is read through `%s`: not (only) the first bit-field of the run, whose `offset_into_unit` is 0"
+                      % "←".join(chain or ["?"]), cg.loc(r))
+
+
+@RULES.rule("R3.10", "a bit-field's width is the one libclang reports for the declaration", floor=2)
+def r3_10(rep):
+    """`Cursor::bit_width` feeds `Bitfield::width`, which every accessor passes on.  It has to be
+    `clang_getFieldDeclBitWidth(self.x)`: folding "the first expression child" instead takes the operand of `__typeof__(E)` /
+    `decltype(E)` in the field's TYPE for the width (`__typeof__(sizeof(0)) off:3` gets width 4)."""
+    prog = rep.prog
+    b = rep.need(prog.fn("clang::Cursor::bit_width"), "clang::Cursor::bit_width")
+    somes = [c for c in b.calls(lambda n: n["k"] == "Call" and (n.get("ctor") or n.get("callee") or "").endswith("::Some"))]
+    rets = [n for n in b.nodes if n["k"] in ("Ret",)]
+    src_ok = 0
+    for c in somes:
+        srcs = b.canon(c["args"][0], 8)
+        ok = "clang_getFieldDeclBitWidth(param:self.clang::Cursor::x)" in srcs
+        src_ok += ok
+        rep.check(ok, "width:from-libclang", "`Some(%s)`" % srcs[:90] if ok else
+                  "`Some(%s)`: the width does not come from clang_getFieldDeclBitWidth(self.x)" % srcs[:90], b.loc(c))
+    other = [c for c in b.calls() if (c.get("name") in ("evaluate", "as_int", "parse") or "EvalResult" in str(c.get("callee") or ""))]
+    tail = b.root.get("tail")
+    tsrc = b.canon(tail, 8) if tail is not None else ""
+    rep.check(bool(somes) and not other and ("clang_getFieldDeclBitWidth" in tsrc or src_ok == len(somes)), "width:no-reevaluation",
+              "the width expression is only inspected for template dependence, never evaluated" if not other else
+              "the width is recomputed (`%s`) instead of being read from the declaration" % (other[0].get("name") or other[0].get("callee")), b.loc(b.root))
+    if not somes:
+        rep.bad("width:from-libclang", "no result of Cursor::bit_width is `Some(clang_getFieldDeclBitWidth(self.x) ..)`: %s" % tsrc[:100], b.loc(b.root))
